@@ -48,7 +48,9 @@ def allowed_effects_rule(prog, res):
     from paths import root_of as _root_of
     whole = [n for n in gp.nodes if n['k'] == 'CXXOperatorCallExpr' and n.get('op') == '=' and R.render(n['args'][1]) == 'arg0' and
              (R.render(n['args'][0]).startswith('this._parameters[') or _root_of(gp, n['args'][0]) == ('this', ['_parameters', '[]']))]
-    if not extra and not partial and len(whole) == 0 and [n for n in gp.nodes if n['k'] == 'CXXOperatorCallExpr' and n.get('op') == '=' and R.render(n['args'][1]) == 'arg0']:
+    if not extra and not partial and len(whole) == 0 and _unseen_stores(gp, '_parameters'):
+        res.undecided('effects', 'Group::parameter(const Parameter&)', gp.loc(), 'the element is written through %s [shape not read by the rule]' % _unseen_stores(gp, '_parameters'), function=gp.sig, expr='gp')
+    elif not extra and not partial and len(whole) == 0 and [n for n in gp.nodes if n['k'] == 'CXXOperatorCallExpr' and n.get('op') == '=' and R.render(n['args'][1]) == 'arg0']:
         # the argument is assigned as a whole to something the rule cannot name as an element (through a pointer / iterator to it)
         res.undecided('effects', 'Group::parameter(const Parameter&)', gp.loc(), 'the argument is assigned as a whole to a place the rule cannot resolve to an element of _parameters [shape not read by the rule]',
                       function=gp.sig, expr='gp')
@@ -168,6 +170,24 @@ def replace_search_rule(prog, res, f, cont, elem_name_re, arg_name):
         res.ok('replace-search', inst, f.loc(dec['id']), 'appends iff no element has exactly the argument\'s name, otherwise writes at the matched index only', function=f.sig, expr='decision')
 
 
+def _unseen_stores(f, cont):
+    """ways of writing the container that the finite-model walk does not record: a lambda body, a std algorithm, a helper that is
+    handed the container (or an element / a reference bound to one) by non-const reference"""
+    R = Renderer(f)
+    if any(True for _ in f.all_nodes({'LambdaExpr'})):
+        return 'a lambda'
+    for c in f.calls():
+        q = str(c['callee'].get('qname', ''))
+        if q in ('std::for_each', 'std::transform', 'std::copy', 'std::generate', 'std::fill', 'std::replace_if', 'std::find_if'):
+            if q != 'std::find_if':
+                return 'the algorithm %s' % q
+        if c['callee'].get('inrepo') and not c['callee'].get('class'):
+            for a, pt in zip(f.call_args(c), c['callee'].get('ptypes', [])):
+                if pt.endswith('&') and not pt.startswith('const ') and ('this.' + cont) in R.render(a):
+                    return 'the helper %s, which receives the container by reference' % c['callee']['name']
+    return None
+
+
 def model_replace_or_append(f, cont, accessor):
     """walk the function on models with 0..3 distinctly named elements (names over A, a, B) and an
     argument named A or a: the stores must be exactly `append the argument` when no element has the
@@ -197,6 +217,8 @@ def model_replace_or_append(f, cont, accessor):
             want = [('at', combo.index(ARG))] if ARG in combo else [('append', 'arg0')]
             got = sorted(set(acts))
             rows += 1
+            if end == 'NEXIT' and set(want) - set(got) and _unseen_stores(f, cont):
+                return 'undecided', 'the stores into %s are made where the walk does not record them (%s)' % (cont, _unseen_stores(f, cont))
             if end != 'NEXIT' or got != want:
                 return 'mismatch', 'with %d element(s) named %s and an argument named %s the function ends in %s having done %s; specified: %s' % (
                     n, list(combo), ARG, end, got or 'nothing', want)
